@@ -641,8 +641,10 @@ def _round_form_ok(du: DefUse, r: ast.Call) -> Tuple[bool, str]:
 
 
 def _is_rounded_relative_time_local(du: DefUse, nid: int, e: ast.AST) -> Tuple[bool, str]:
-    for _ in range(3):
-        if isinstance(e, ast.Name):
+    for _ in range(4):
+        if isinstance(e, ast.Subscript):
+            e = e.value          # an element of the rounded array is rounded the same way
+        elif isinstance(e, ast.Name):
             d = du.unique_value(nid, e.id)
             if d is None or d.value is None or d.sel:
                 return False, f"`{e.id}` has no unique definition"
@@ -661,7 +663,8 @@ def _is_rounded_relative_time_local(du: DefUse, nid: int, e: ast.AST) -> Tuple[b
         if isinstance(x, ast.Subscript) and "_control_times" in norm(x):
             return Poly.sym("T")
         return None
-    f = eval_form(e.args[0], res)
+    from oqv.dataflow import form_at
+    f = form_at(du, nid, e.args[0], res)
     want = (Poly.sym("T") - Poly.sym("START")).div(Poly.sym("DT"))
     if f is None:
         return False, f"cannot read the form of `{norm(e.args[0])}`"
@@ -688,6 +691,61 @@ def o4(prog: Program, chk: Check) -> None:
             "none stale", function="<module>")
 
 
+# --------------------------------------------------------------------- O5
+def o5(prog: Program, chk: Check) -> None:
+    chk.rule("O5", "every float-time control that rounds to the current step acts, each once: on "
+             "each side (pre / post) the control times are selected by the full equality mask of "
+             "the rounded times with `step` and every selected time is applied (a loop over the "
+             "selection, possibly with its first element peeled off)", floor=2)
+    from oqv.dataflow import origin, origin_text
+    u = prog.unit("control:Control.get_controls")
+    du = DefUse(u, CFG(u.node, exc_edges=False))
+    chk.saw(u, du.cfg)
+    for side in ("pre", "post"):
+        apps = []      # (key expression, node) of  self._time_controls[side][KEY] @ ...
+        for n in du.cfg.nodes:
+            if n.copy_of:
+                continue
+            for x in n.walk():
+                if isinstance(x, ast.Subscript) and isinstance(x.value, ast.Subscript) \
+                        and dotted(x.value.value) == "self._time_controls" \
+                        and isinstance(x.value.slice, ast.Constant) and x.value.slice.value == side \
+                        and isinstance(x.ctx, ast.Load):
+                    apps.append((x.slice, n.id))
+        if not apps:
+            raise AnalysisError(f"O5: no application of float-time {side} controls in get_controls")
+        keys = [origin(du, nid, k) for (k, nid) in apps]
+        texts = [norm(k) for k in keys]
+        # the selection the keys are drawn from
+        sel = None
+        whole_loop = False
+        peeled_first = peeled_rest = False
+        for k in keys:
+            if isinstance(k, ast.Call) and isinstance(k.func, ast.Name) and k.func.id == "ELEM":
+                base = k.args[0]
+                if isinstance(base, ast.Subscript) and isinstance(base.slice, ast.Slice) \
+                        and norm(base.slice) == "1:":
+                    peeled_rest, sel = True, base.value
+                else:
+                    whole_loop, sel = True, base
+            elif isinstance(k, ast.Subscript) and isinstance(k.slice, ast.Constant) \
+                    and k.slice.value == 0:
+                peeled_first = True
+                sel = sel or k.value
+        covered = whole_loop or (peeled_first and peeled_rest)
+        sel_text = norm(sel) if sel is not None else ""
+        full_mask = ("== step" in sel_text or "step ==" in sel_text) and \
+            not any(w in sel_text for w in ("searchsorted", "argmax", "argmin", "index("))
+        ok = covered and full_mask
+        chk.add("O5", u, f"{side}: float-time controls applied at keys {texts}", ok,
+                "all times selected by the equality mask are applied" if ok else
+                ("only one of the control times that round to this step is applied: a second "
+                 "control given at a different float time of the same step is silently dropped"
+                 if not covered else
+                 "the control times of a step are not selected by the full equality mask of the "
+                 "rounded times with `step`"), None)
+
+
 def run(prog: Program, chk: Check) -> None:
     chk.explanation = (
         "Decides the order clauses of C18: O1 composition order of stacked controls in Control "
@@ -704,3 +762,4 @@ def run(prog: Program, chk: Check) -> None:
     chk.call(o3, prog, chk)
     chk.call(o3b, prog, chk)
     chk.call(o4, prog, chk)
+    chk.call(o5, prog, chk)
